@@ -20,10 +20,13 @@ def _pow(x, y):
     except (ValueError, OverflowError):
         return math.nan if x < 0 else math.inf
 
-def fold(e, mapping=None):
+def fold(e, mapping=None, crate=None):
     """substitute `mapping` (atom id -> E) and fold; libm calls on constants are evaluated
     in double precision and rounded to the node's format (within 1 ulp of the true value)."""
     e = X.substitute(e, mapping or {})
+    if crate is not None:
+        from .apps import expand_apps
+        e = expand_apps(e, crate)
     for _ in range(64):
         if e.is_const:
             return e
